@@ -1,0 +1,483 @@
+//! Verification seam of the runtime, compiled only with `--cfg may_verif`.
+//!
+//! Shims with the API subset the crate uses of `std::thread`, `std::time::Instant`,
+//! `parking_lot::{Mutex, Condvar, RwLock}` and `crossbeam::queue::SegQueue`. Each
+//! one reports to the hooks installed through `may_queue::verif::install` and
+//! falls through to the real thing when nothing is installed or the calling
+//! thread is not a simulated one.
+
+pub use may_queue::verif::{atomic, hooks, install, point, probe, Hooks, Loc, Op};
+
+/// the hooks, but only if the calling thread is a simulated one
+#[inline]
+pub fn active() -> Option<&'static dyn Hooks> {
+    match hooks() {
+        Some(h) if h.current() != usize::MAX => Some(h),
+        _ => None,
+    }
+}
+
+/// virtual clock in ns, `None` if not simulated
+#[inline]
+pub fn now() -> Option<u64> {
+    active().map(|h| h.now_ns())
+}
+
+/// identity of a coroutine that is stable for its whole life: its local data
+#[inline]
+pub fn co_enter(key: usize) {
+    if let Some(h) = hooks() {
+        h.co_enter(key);
+    }
+}
+
+#[inline]
+pub fn co_leave(key: usize) {
+    if let Some(h) = hooks() {
+        h.co_leave(key);
+    }
+}
+
+/// key of the coroutine that is running on the calling thread (0 in thread context)
+#[inline]
+pub fn current_co_key() -> usize {
+    match crate::local::get_co_local_data() {
+        Some(p) => p.as_ptr() as usize,
+        None => 0,
+    }
+}
+
+#[inline]
+pub fn io_event() {
+    if let Some(h) = hooks() {
+        h.io_event();
+    }
+}
+
+/// idle wait of an event loop: block in the simulator, then poll the kernel with 0
+#[cfg(any(target_os = "linux", target_os = "android"))]
+pub fn epoll_block(
+    epfd: std::os::fd::RawFd,
+    timeout: nix::sys::epoll::EpollTimeout,
+) -> nix::sys::epoll::EpollTimeout {
+    match active() {
+        Some(h) => {
+            let ms: i32 = timeout.into();
+            h.epoll_block(epfd, ms as isize);
+            nix::sys::epoll::EpollTimeout::ZERO
+        }
+        None => timeout,
+    }
+}
+
+pub mod thread {
+    use super::{active, hooks};
+    pub use std::thread::{panicking, JoinHandle, Result};
+    use std::time::Duration;
+
+    #[derive(Clone, Debug)]
+    pub struct Thread {
+        real: std::thread::Thread,
+        tok: usize,
+    }
+
+    impl Thread {
+        pub fn unpark(&self) {
+            match hooks() {
+                Some(h) if self.tok != usize::MAX => h.unpark(self.tok),
+                _ => self.real.unpark(),
+            }
+        }
+    }
+
+    pub fn current() -> Thread {
+        Thread {
+            real: std::thread::current(),
+            tok: hooks().map(|h| h.current()).unwrap_or(usize::MAX),
+        }
+    }
+
+    pub fn park() {
+        match active() {
+            Some(h) => h.park(None),
+            None => std::thread::park(),
+        }
+    }
+
+    pub fn park_timeout(dur: Duration) {
+        match active() {
+            Some(h) => h.park(Some(dur.as_nanos() as u64)),
+            None => std::thread::park_timeout(dur),
+        }
+    }
+
+    pub fn sleep(dur: Duration) {
+        match active() {
+            Some(h) => h.sleep(dur.as_nanos() as u64),
+            None => std::thread::sleep(dur),
+        }
+    }
+
+    pub fn yield_now() {
+        match active() {
+            Some(h) => h.yield_now(),
+            None => std::thread::yield_now(),
+        }
+    }
+
+    pub fn spawn<F, T>(f: F) -> JoinHandle<T>
+    where
+        F: FnOnce() -> T + Send + 'static,
+        T: Send + 'static,
+    {
+        match active() {
+            None => std::thread::spawn(f),
+            Some(h) => {
+                let tok = h.spawn_prepare();
+                let jh = std::thread::spawn(move || {
+                    h.spawn_child_begin(tok);
+                    let r = f();
+                    h.spawn_child_end(tok);
+                    r
+                });
+                h.spawn_parent_wait(tok);
+                jh
+            }
+        }
+    }
+}
+
+pub mod time {
+    use super::active;
+    use std::cmp::Ordering;
+    use std::ops::Add;
+    use std::time::Duration;
+
+    /// `std::time::Instant` on the virtual clock when simulated
+    #[derive(Clone, Copy, Debug)]
+    pub enum Instant {
+        Real(std::time::Instant),
+        Virt(u64),
+    }
+
+    impl Instant {
+        pub fn now() -> Instant {
+            match active() {
+                Some(h) => Instant::Virt(h.now_ns()),
+                None => Instant::Real(std::time::Instant::now()),
+            }
+        }
+
+        pub fn elapsed(&self) -> Duration {
+            match (Instant::now(), *self) {
+                (Instant::Real(a), Instant::Real(b)) => a.duration_since(b),
+                (Instant::Virt(a), Instant::Virt(b)) => Duration::from_nanos(a.saturating_sub(b)),
+                _ => panic!("mixed real and virtual instants"),
+            }
+        }
+    }
+
+    impl Add<Duration> for Instant {
+        type Output = Instant;
+        fn add(self, d: Duration) -> Instant {
+            match self {
+                Instant::Real(i) => Instant::Real(i + d),
+                Instant::Virt(t) => Instant::Virt(t.saturating_add(d.as_nanos() as u64)),
+            }
+        }
+    }
+
+    impl PartialEq for Instant {
+        fn eq(&self, other: &Instant) -> bool {
+            self.partial_cmp(other) == Some(Ordering::Equal)
+        }
+    }
+
+    impl PartialOrd for Instant {
+        fn partial_cmp(&self, other: &Instant) -> Option<Ordering> {
+            match (self, other) {
+                (Instant::Real(a), Instant::Real(b)) => a.partial_cmp(b),
+                (Instant::Virt(a), Instant::Virt(b)) => a.partial_cmp(b),
+                _ => panic!("mixed real and virtual instants"),
+            }
+        }
+    }
+}
+
+/// `parking_lot` locks whose *blocking* is done in the simulator: the real lock is
+/// only ever `try_`-locked, a failed attempt blocks on the lock's address
+pub mod pl {
+    use super::{active, Op};
+    use std::ops::{Deref, DerefMut};
+    use std::time::Duration;
+
+    #[derive(Debug)]
+    pub struct Mutex<T>(parking_lot::Mutex<T>);
+
+    pub struct MutexGuard<'a, T> {
+        g: Option<parking_lot::MutexGuard<'a, T>>,
+        m: &'a Mutex<T>,
+    }
+
+    impl<T> Mutex<T> {
+        pub const fn new(t: T) -> Self {
+            Mutex(parking_lot::Mutex::new(t))
+        }
+
+        #[inline]
+        fn key(&self) -> usize {
+            self as *const _ as usize
+        }
+
+        fn lock_real(&self) -> parking_lot::MutexGuard<'_, T> {
+            match active() {
+                None => self.0.lock(),
+                Some(h) => loop {
+                    h.point(Op::LockTry, self.key(), std::panic::Location::caller());
+                    if let Some(g) = self.0.try_lock() {
+                        return g;
+                    }
+                    h.block_on(self.key(), None);
+                },
+            }
+        }
+
+        pub fn lock(&self) -> MutexGuard<'_, T> {
+            MutexGuard {
+                g: Some(self.lock_real()),
+                m: self,
+            }
+        }
+    }
+
+    impl<T> Deref for MutexGuard<'_, T> {
+        type Target = T;
+        fn deref(&self) -> &T {
+            self.g.as_ref().unwrap()
+        }
+    }
+
+    impl<T> DerefMut for MutexGuard<'_, T> {
+        fn deref_mut(&mut self) -> &mut T {
+            self.g.as_mut().unwrap()
+        }
+    }
+
+    impl<T> Drop for MutexGuard<'_, T> {
+        fn drop(&mut self) {
+            self.g.take();
+            if let Some(h) = active() {
+                h.wake(self.m.key(), true);
+            }
+        }
+    }
+
+    #[derive(Debug, Clone, Copy)]
+    pub struct WaitTimeoutResult(bool);
+
+    impl WaitTimeoutResult {
+        pub fn timed_out(&self) -> bool {
+            self.0
+        }
+    }
+
+    #[derive(Debug)]
+    pub struct Condvar(parking_lot::Condvar);
+
+    impl Condvar {
+        pub const fn new() -> Self {
+            Condvar(parking_lot::Condvar::new())
+        }
+
+        #[inline]
+        fn key(&self) -> usize {
+            self as *const _ as usize | 1
+        }
+
+        pub fn notify_one(&self) -> bool {
+            match active() {
+                Some(h) => {
+                    h.wake(self.key(), false);
+                    true
+                }
+                None => self.0.notify_one(),
+            }
+        }
+
+        pub fn wait<T>(&self, guard: &mut MutexGuard<'_, T>) {
+            match active() {
+                None => self.0.wait(guard.g.as_mut().unwrap()),
+                Some(h) => {
+                    // unlock, block, relock: no schedule point between the unlock and
+                    // the block, so a notify can not slip in between
+                    guard.g.take();
+                    h.wake(guard.m.key(), true);
+                    h.block_on(self.key(), None);
+                    guard.g = Some(guard.m.lock_real());
+                }
+            }
+        }
+
+        pub fn wait_for<T>(
+            &self,
+            guard: &mut MutexGuard<'_, T>,
+            dur: Duration,
+        ) -> WaitTimeoutResult {
+            match active() {
+                None => WaitTimeoutResult(self.0.wait_for(guard.g.as_mut().unwrap(), dur).timed_out()),
+                Some(h) => {
+                    guard.g.take();
+                    h.wake(guard.m.key(), true);
+                    let woken = h.block_on(self.key(), Some(dur.as_nanos() as u64));
+                    guard.g = Some(guard.m.lock_real());
+                    WaitTimeoutResult(!woken)
+                }
+            }
+        }
+    }
+
+    #[derive(Debug)]
+    pub struct RwLock<T>(parking_lot::RwLock<T>);
+
+    pub struct RwLockReadGuard<'a, T> {
+        g: Option<parking_lot::RwLockReadGuard<'a, T>>,
+        key: usize,
+    }
+
+    pub struct RwLockWriteGuard<'a, T> {
+        g: Option<parking_lot::RwLockWriteGuard<'a, T>>,
+        key: usize,
+    }
+
+    impl<T> RwLock<T> {
+        pub const fn new(t: T) -> Self {
+            RwLock(parking_lot::RwLock::new(t))
+        }
+
+        #[inline]
+        fn key(&self) -> usize {
+            self as *const _ as usize
+        }
+
+        pub fn read(&self) -> RwLockReadGuard<'_, T> {
+            let g = match active() {
+                None => self.0.read(),
+                Some(h) => loop {
+                    h.point(Op::LockTry, self.key(), std::panic::Location::caller());
+                    if let Some(g) = self.0.try_read() {
+                        break g;
+                    }
+                    h.block_on(self.key(), None);
+                },
+            };
+            RwLockReadGuard {
+                g: Some(g),
+                key: self.key(),
+            }
+        }
+
+        pub fn write(&self) -> RwLockWriteGuard<'_, T> {
+            let g = match active() {
+                None => self.0.write(),
+                Some(h) => loop {
+                    h.point(Op::LockTry, self.key(), std::panic::Location::caller());
+                    if let Some(g) = self.0.try_write() {
+                        break g;
+                    }
+                    h.block_on(self.key(), None);
+                },
+            };
+            RwLockWriteGuard {
+                g: Some(g),
+                key: self.key(),
+            }
+        }
+    }
+
+    impl<T> Deref for RwLockReadGuard<'_, T> {
+        type Target = T;
+        fn deref(&self) -> &T {
+            self.g.as_ref().unwrap()
+        }
+    }
+
+    impl<T> Drop for RwLockReadGuard<'_, T> {
+        fn drop(&mut self) {
+            self.g.take();
+            if let Some(h) = active() {
+                h.wake(self.key, true);
+            }
+        }
+    }
+
+    impl<T> Deref for RwLockWriteGuard<'_, T> {
+        type Target = T;
+        fn deref(&self) -> &T {
+            self.g.as_ref().unwrap()
+        }
+    }
+
+    impl<T> DerefMut for RwLockWriteGuard<'_, T> {
+        fn deref_mut(&mut self) -> &mut T {
+            self.g.as_mut().unwrap()
+        }
+    }
+
+    impl<T> Drop for RwLockWriteGuard<'_, T> {
+        fn drop(&mut self) {
+            self.g.take();
+            if let Some(h) = active() {
+                h.wake(self.key, true);
+            }
+        }
+    }
+}
+
+/// `crossbeam::queue::SegQueue` with a schedule point before each operation
+pub struct SegQueue<T>(crossbeam::queue::SegQueue<T>);
+
+impl<T> SegQueue<T> {
+    pub const fn new() -> Self {
+        SegQueue(crossbeam::queue::SegQueue::new())
+    }
+
+    #[inline]
+    #[track_caller]
+    pub fn push(&self, t: T) {
+        point(Op::QPush, self as *const _ as usize);
+        self.0.push(t)
+    }
+
+    #[inline]
+    #[track_caller]
+    pub fn pop(&self) -> Option<T> {
+        point(Op::QPop, self as *const _ as usize);
+        self.0.pop()
+    }
+
+    #[inline]
+    #[track_caller]
+    pub fn is_empty(&self) -> bool {
+        point(Op::Load, self as *const _ as usize);
+        self.0.is_empty()
+    }
+
+    #[inline]
+    #[track_caller]
+    pub fn len(&self) -> usize {
+        point(Op::Load, self as *const _ as usize);
+        self.0.len()
+    }
+}
+
+impl<T> Default for SegQueue<T> {
+    fn default() -> Self {
+        Self::new()
+    }
+}
+
+impl<T> std::fmt::Debug for SegQueue<T> {
+    fn fmt(&self, f: &mut std::fmt::Formatter<'_>) -> std::fmt::Result {
+        f.pad("SegQueue { .. }")
+    }
+}
